@@ -36,6 +36,7 @@ type P struct {
 }
 
 func (p *P) Key() string { return p.Thread + "@" + p.Point }
+func (p *P) Seq() int    { return p.seq }
 
 // Action is an environment action offered by the scenario at a step.
 type Action struct {
@@ -72,7 +73,7 @@ type Sched struct {
 	ParkPoints map[string]bool
 	// ThreadOf maps (point, name, goid) to a stable thread name for goroutines
 	// not spawned through Go(). Default: point prefix before the first dot + ":" + name.
-	ThreadOf func(point, name string) string
+	ThreadOf func(point, name, stack string) string
 	// ExpectLMDBBlock: a goroutine sitting in mdb_txn_begin counts as blocked
 	// (the harness holds an application write transaction open).
 	ExpectLMDBBlock bool
@@ -94,6 +95,7 @@ type Sched struct {
 	lastInfo []GInfo
 	sleepErr map[uint64]error
 	stale    map[uint64]bool
+	primed   bool
 }
 
 func New(ctx *explore.Ctx) *Sched {
@@ -138,7 +140,11 @@ func (s *Sched) threadName(point, name string, id uint64) string {
 	}
 	var t string
 	if s.ThreadOf != nil {
-		t = s.ThreadOf(point, name)
+		s.mu.Unlock()
+		var buf [8192]byte
+		n := runtime.Stack(buf[:], false)
+		t = s.ThreadOf(point, name, string(buf[:n]))
+		s.mu.Lock()
 	} else {
 		t, _, _ = strings.Cut(point, ".")
 		if name != "" {
@@ -260,7 +266,7 @@ func (s *Sched) Release(p *P, answer int) {
 // Running returns the thread released in the previous step.
 func (s *Sched) Running() string { return s.running }
 
-var blockedStates = []string{"chan receive", "chan send", "select", "sync.Mutex.Lock", "sync.RWMutex.RLock", "sync.RWMutex.Lock", "sync.WaitGroup.Wait", "sync.Cond.Wait", "semacquire"}
+var blockedStates = []string{"chan receive", "chan send", "select", "sync.Mutex.Lock", "sync.RWMutex.RLock", "sync.RWMutex.Lock", "sync.WaitGroup.Wait", "sync.Cond.Wait"}
 
 func isBlockedState(st string) bool {
 	for _, b := range blockedStates {
@@ -341,7 +347,17 @@ func (s *Sched) WaitQuiescent() []GInfo {
 		infos := s.Snapshot()
 		quiet := true
 		for _, g := range infos {
+			if g.ID == s.self {
+				continue
+			}
 			if !g.Managed || s.stale[g.ID] {
+				// Goroutines outside the managed set (health check evaluators, leftovers of
+				// earlier executions) can hold a lock a managed goroutine is waiting for:
+				// while one of them is executing, a "blocked" managed goroutine may be about to wake.
+				if g.State == "running" || g.State == "runnable" {
+					quiet = false
+					break
+				}
 				continue
 			}
 			if isBlockedState(g.State) {
@@ -413,7 +429,10 @@ func (s *Sched) BlockedManaged() []GInfo {
 
 // Step performs one scheduling step. It returns false when nothing is enabled.
 func (s *Sched) Step() bool {
-	s.WaitQuiescent()
+	if !s.primed {
+		s.WaitQuiescent()
+		s.primed = true
+	}
 	choices := s.Policy(s, s.Parked())
 	if len(choices) == 0 {
 		return false
@@ -430,9 +449,11 @@ func (s *Sched) Step() bool {
 	}
 	if c.Act != nil {
 		c.Act.Do()
-		return true
+	} else {
+		s.Release(c.P, c.Answer)
 	}
-	s.Release(c.P, c.Answer)
+	// a step ends when the world is quiescent again: observations made after Step are stable
+	s.WaitQuiescent()
 	return true
 }
 
